@@ -333,4 +333,143 @@ Section Out.
       { apply knotify_krel; [now apply knotify_krel | now apply knotify_nohit]. }
       destruct (fisdir q t); [|exact R2]. apply kgone_krel; [exact R2|]. now repeat apply knotify_nohit.
   Qed.
+
+  (* ---------------------------------------------------------------- the reader never looks at the kernel queue it holds *)
+  Definition keq (k1 k2 : kst) : Prop :=
+    k_watches k1 = k_watches k2 /\ k_next_wd k1 = k_next_wd k2 /\ k_next_cookie k1 = k_next_cookie k2.
+
+  Lemma keq_refl k : keq k k. Proof. now repeat split. Qed.
+
+  Definition orel {A} (o1 o2 : outcome (A * kst * list raw)) : Prop :=
+    match o1, o2 with
+    | Done (r1, k1, a1), Done (r2, k2, a2) => r1 = r2 /\ a1 = a2 /\ keq k1 k2
+    | Crash s1, Crash s2 => s1 = s2
+    | _, _ => False
+    end.
+
+  Ltac ksolve := cbn; first [ assumption | reflexivity | (split; [reflexivity | split; [reflexivity | assumption]]) | (split; [reflexivity | assumption]) | (split; assumption) ].
+
+  Lemma kadd_watch_keq k1 k2 t p m : keq k1 k2 ->
+    match kadd_watch k1 t p m, kadd_watch k2 t p m with
+    | Some (a, wa), Some (b, wb) => wa = wb /\ keq a b
+    | None, None => True
+    | _, _ => False
+    end.
+  Proof.
+    intros (A & B & D). unfold kadd_watch, watch_of_ino. rewrite A. destruct (flookup p t) as [e|]; [|exact I].
+    destruct (find _ (k_watches k2)) as [w0|]; (split; [congruence|]); unfold keq; cbn; repeat split; congruence.
+  Qed.
+
+  Lemma add_watch_keq r k1 k2 t p : keq k1 k2 ->
+    match add_watch C r k1 t p, add_watch C r k2 t p with
+    | Some (ra, a, wa), Some (rb, b, wb) => ra = rb /\ wa = wb /\ keq a b
+    | None, None => True
+    | _, _ => False
+    end.
+  Proof.
+    intros E. unfold add_watch. destruct (mem_nat (calls r) (c_faults C)); [exact I|].
+    assert (H := kadd_watch_keq k1 k2 t p (c_mask C) E).
+    destruct (kadd_watch k1 t p (c_mask C)) as [[a wa]|], (kadd_watch k2 t p (c_mask C)) as [[b wb]|]; try contradiction; [|exact I].
+    destruct H as [-> H]. split; [reflexivity|]. split; [reflexivity | exact H].
+  Qed.
+
+  Lemma sim_dirs_keq t rt ds : forall r k1 k2 acc, keq k1 k2 ->
+    let '(ra, a, xa) := sim_dirs C r k1 t rt ds acc in let '(rb, b, xb) := sim_dirs C r k2 t rt ds acc in
+    ra = rb /\ xa = xb /\ keq a b.
+  Proof.
+    induction ds as [|d ds IH]; intros r k1 k2 acc E; cbn [sim_dirs]; [ksolve|].
+    assert (H := add_watch_keq r k1 k2 t (join rt d) E).
+    destruct (add_watch C r k1 t (join rt d)) as [[[ra a] wa]|], (add_watch C r k2 t (join rt d)) as [[[rb b] wb]|]; try contradiction.
+    - destruct H as (-> & -> & H). now apply IH.
+    - now apply IH.
+  Qed.
+
+  Lemma simulate_keq t wk : forall r k1 k2 acc, keq k1 k2 ->
+    orel (simulate C r k1 t wk acc) (simulate C r k2 t wk acc).
+  Proof.
+    induction wk as [|[[rt ds] fls] wk IH]; intros r k1 k2 acc E; cbn [simulate]; [cbn; ksolve|].
+    assert (H := sim_dirs_keq t rt ds r k1 k2 acc E).
+    destruct (sim_dirs C r k1 t rt ds acc) as [[ra a] xa], (sim_dirs C r k2 t rt ds acc) as [[rb b] xb].
+    destruct H as (-> & -> & H). destruct (sim_files C rb rt fls xb); [now apply IH | reflexivity].
+  Qed.
+
+  Lemma add_dirs_keq t ps : forall r k1 k2, keq k1 k2 ->
+    fst (add_dirs C r k1 t ps) = fst (add_dirs C r k2 t ps) /\ keq (snd (add_dirs C r k1 t ps)) (snd (add_dirs C r k2 t ps)).
+  Proof.
+    induction ps as [|p ps IH]; intros r k1 k2 E; cbn [add_dirs]; [now split|].
+    assert (H := add_watch_keq r k1 k2 t p E).
+    destruct (add_watch C r k1 t p) as [[[ra a] wa]|], (add_watch C r k2 t p) as [[[rb b] wb]|]; try contradiction.
+    - destruct H as (-> & -> & H). now apply IH.
+    - now split.
+  Qed.
+
+  Lemma krm_watch_keq k1 k2 wd : keq k1 k2 -> keq (krm_watch k1 wd) (krm_watch k2 wd).
+  Proof.
+    intros (A & B & D). destruct (krm_watches_eq k1 wd) as (A1 & B1 & D1 & _). destruct (krm_watches_eq k2 wd) as (A2 & B2 & D2 & _).
+    repeat split; congruence.
+  Qed.
+
+  Lemma forget_tree_keq p keys : forall r k1 k2, keq k1 k2 ->
+    fst (forget_tree keys p r k1) = fst (forget_tree keys p r k2) /\ keq (snd (forget_tree keys p r k1)) (snd (forget_tree keys p r k2)).
+  Proof.
+    induction keys as [|[q0 y] keys IH]; intros r k1 k2 E; cbn [forget_tree]; [now split|].
+    destruct (beqb q0 p || starts (p ++ [sep]) q0); [|now apply IH].
+    destruct (alookup beqb q0 (wfp r)) as [wd|]; [|now apply IH].
+    destruct (alookup N.eqb wd (pfw r)) as [q'|]; [|now apply IH].
+    destruct (beqb q' q0); [|now apply IH]. apply IH. now apply krm_watch_keq.
+  Qed.
+
+  Lemma settle_pending_keq r k1 k2 e : keq k1 k2 ->
+    fst (settle_pending C r k1 e) = fst (settle_pending C r k2 e) /\ keq (snd (settle_pending C r k1 e)) (snd (settle_pending C r k2 e)).
+  Proof.
+    intros E. unfold settle_pending. destruct (c_fix_moveout C); [|now split]. destruct (pend r) as [[c p]|]; [|now split].
+    destruct (is_moved_to (k_mask e) && N.eqb (k_cookie e) c && amem N.eqb (k_wd e) (pfw r)); [now split|].
+    now apply forget_tree_keq.
+  Qed.
+
+  Lemma read_one_body_keq t r k1 k2 acc e : keq k1 k2 ->
+    orel (read_one_body C t (r, k1, acc) e) (read_one_body C t (r, k2, acc) e).
+  Proof.
+    intros E. unfold read_one_body. destruct (alookup N.eqb (k_wd e) (pfw r)) as [wp|].
+    2:{ destruct (c_fix_moveout C); cbn; [ksolve | reflexivity]. }
+    set (sp := match k_name e with [] => wp | _ :: _ => join wp (k_name e) end).
+    assert (HAD := add_dirs_keq t (sp :: walk_dirs t sp) r k1 k2 E).
+    destruct (add_dirs C r k1 t (sp :: walk_dirs t sp)) as [rda ka] eqn:Ea.
+    destruct (add_dirs C r k2 t (sp :: walk_dirs t sp)) as [rdb kb] eqn:Eb. cbn [fst snd] in HAD. destruct HAD as [-> HAD].
+    (* the first part yields the same reader state and event, and related kernels *)
+    match goal with |- orel (match ?X1 with pair _ _ => _ end) (match ?X2 with pair _ _ => _ end) =>
+      assert (HX : fst (fst X1) = fst (fst X2) /\ snd X1 = snd X2 /\ keq (snd (fst X1)) (snd (fst X2))) end.
+    { destruct (is_moved_from (k_mask e)); [ksolve|]. destruct (is_moved_to (k_mask e)); [|ksolve].
+      destruct (alookup N.eqb (k_cookie e) (mvf r)) as [ms|].
+      - destruct (alookup beqb ms (wfp r)); [ksolve|].
+        destruct (c_fix_movein C && c_recursive C && is_directory (k_mask e) && fisdir sp t); ksolve.
+      - destruct (c_fix_movein C && c_recursive C && is_directory (k_mask e) && fisdir sp t); ksolve. }
+    match goal with |- orel (match ?X1 with pair _ _ => _ end) (match ?X2 with pair _ _ => _ end) =>
+      destruct X1 as [[ra1 ka1] eva], X2 as [[rb1 kb1] evb] end.
+    cbn [fst snd] in HX. destruct HX as (-> & -> & HK).
+    match goal with |- orel (match ?Y with Done r2 => _ | Crash s => Crash s end) _ => destruct Y as [r2|]; [|reflexivity] end.
+    destruct (c_recursive C && is_directory (k_mask e) && is_create (k_mask e)); [|cbn; ksolve].
+    assert (H := add_watch_keq r2 ka1 kb1 t (r_path evb) HK).
+    destruct (add_watch C r2 ka1 t (r_path evb)) as [[[r3a k3a] wa]|], (add_watch C r2 kb1 t (r_path evb)) as [[[r3b k3b] wb]|]; try contradiction.
+    - destruct H as (-> & -> & H). now apply simulate_keq.
+    - cbn. ksolve.
+  Qed.
+
+  Lemma read_one_keq t r k1 k2 acc e : keq k1 k2 -> orel (read_one C t (r, k1, acc) e) (read_one C t (r, k2, acc) e).
+  Proof.
+    intros E. unfold read_one. assert (H := settle_pending_keq r k1 k2 e E).
+    destruct (settle_pending C r k1 e) as [ra ka], (settle_pending C r k2 e) as [rb kb]. cbn [fst snd] in H.
+    destruct H as [-> H]. now apply read_one_body_keq.
+  Qed.
+
+  Lemma read_batch_keq t b : forall r k1 k2 acc, keq k1 k2 ->
+    orel (read_batch C t (r, k1, acc) b) (read_batch C t (r, k2, acc) b).
+  Proof.
+    induction b as [|e b IH]; intros r k1 k2 acc E; cbn [read_batch]; [cbn; ksolve|].
+    assert (H := read_one_keq t r k1 k2 acc e E).
+    destruct (read_one C t (r, k1, acc) e) as [[[ra ka] xa]|sa], (read_one C t (r, k2, acc) e) as [[[rb kb] xb]|sb];
+      cbn in H; try contradiction.
+    - destruct H as (-> & -> & H). now apply IH.
+    - now subst.
+  Qed.
 End Out.
